@@ -23,3 +23,5 @@ func setEngineQuiet(q bool) {}
 func engineOpSequence() []string { return nil }
 
 func engineFaults(r *RunCtx) { r.fail("harness", "C19", "C19 needs the vectors build") }
+
+func loadVectorCaches(w *World, seg segment.Segment) (int, error) { return 0, nil }
